@@ -23,7 +23,8 @@ these functions take them as parameters.
 External symbols (`get_instance`, `fit`, `kstest`) are parameters: a candidate's outcome on the
 data is `none` (fit / kstest raised — the `except Exception: pass` branch) or `some ks` where
 `ks : KS ρ` is the statistic as the code sees it, `KS.nan` or a value of an ordered type `ρ`
-(`Float` in the driver, any linear order with top and bottom in the theorems).
+(`Float` in the driver, any linear order with top and bottom in the theorems; the order is
+passed as an explicit dictionary `KSOrd ρ`).
 -/
 namespace CopVerif.Model
 
